@@ -114,13 +114,17 @@ theorem processTestRequest_plain (env : Env) (m : Msg) : M.Rel RPlain (processTe
   unfold processTestRequest
   rel_tac [sendMsg_plain]
 
-theorem resendLoop_plain (env : Env) (sr : Msg → Bool) (rows : List Msg) (a b : Int) :
-    M.Rel RPlain (resendLoop env sr rows a b) := by
+theorem persistOutboundRow_plain (n : Int) (row : Msg) : M.Rel RPlain (persistOutboundRow n row) := by
+  unfold persistOutboundRow
+  rel_tac [RPlain.modify]
+
+theorem resendLoop_plain (env : Env) (sr : Msg → Bool) (endNo : Int) (rows : List Msg) (a b : Int) :
+    M.Rel RPlain (resendLoop env sr endNo rows a b) := by
   induction rows generalizing a b with
   | nil => unfold resendLoop; rel_tac []
   | cons row rest ih =>
     unfold resendLoop
-    rel_tac [sendMsg_plain, ih]
+    rel_tac [sendMsg_plain, persistOutboundRow_plain, ih]
 
 theorem processResend_plain (env : Env) (sr : Msg → Bool) (m : Msg) :
     M.Rel RPlain (processResend env sr m) := by
